@@ -206,11 +206,26 @@ func randRR(r *mrand.Rand, zone string, small bool) dns.RR {
 	h := func(t uint16) dns.RR_Header {
 		return dns.RR_Header{Name: owner, Rrtype: t, Class: dns.ClassINET, Ttl: uint32(r.Intn(100000))}
 	}
-	k := r.Intn(8)
+	k := r.Intn(11)
 	if small {
 		k = 0
 	}
+	sigData := func(t uint16) dns.RRSIG { // a signature record carried as data (not the transaction signature)
+		b := make([]byte, 20+r.Intn(50))
+		r.Read(b)
+		return dns.RRSIG{Hdr: h(t), TypeCovered: dns.TypeA, Algorithm: 8, Labels: 2, OrigTtl: 300, Expiration: r.Uint32(), Inception: r.Uint32(),
+			KeyTag: uint16(r.Intn(65536)), SignerName: zone, Signature: base64.StdEncoding.EncodeToString(b)}
+	}
 	switch k {
+	case 8:
+		return &dns.SIG{RRSIG: sigData(dns.TypeSIG)}
+	case 9:
+		return &dns.RRSIG{Hdr: sigData(dns.TypeRRSIG).Hdr, TypeCovered: dns.TypeA, Algorithm: 13, Labels: 2, OrigTtl: 300, Expiration: r.Uint32(), Inception: r.Uint32(),
+			KeyTag: uint16(r.Intn(65536)), SignerName: zone, Signature: sigData(dns.TypeRRSIG).Signature}
+	case 10:
+		b := make([]byte, 32)
+		r.Read(b)
+		return &dns.KEY{DNSKEY: dns.DNSKEY{Hdr: h(dns.TypeKEY), Flags: 256, Protocol: 3, Algorithm: 15, PublicKey: base64.StdEncoding.EncodeToString(b)}}
 	case 0:
 		return &dns.A{Hdr: h(dns.TypeA), A: net.IPv4(192, 0, 2, byte(r.Intn(256))).To4()}
 	case 1:
@@ -257,6 +272,52 @@ func arMsg(r *mrand.Rand, i int) msgCase {
 		m.Extra = append(m.Extra, randRR(r, "a.", true))
 	}
 	return msgCase{m, "key.example.", 0}
+}
+
+// the messages every run starts with when asked to (record ... 1): the ARCOUNT boundaries, a message of about
+// 3 kB and one of about 20 kB (signed with EVERY algorithm), and one that already carries SIG / KEY / RRSIG
+// records -- among them a SIG(0)-shaped record at the end of the additional section, as after signing twice
+const (
+	idxLarge3k   = 6
+	idxLarge20k  = 7
+	idxPresigned = 8
+	nSpecial     = 9
+)
+
+func specialMsg(r *mrand.Rand, i int) (msgCase, bool) {
+	if i < len(arBoundary) {
+		return arMsg(r, i), false
+	}
+	m := new(dns.Msg)
+	m.Id = uint16(r.Intn(65536))
+	m.Response = true
+	m.Question = []dns.Question{{Name: "www.example.org.", Qtype: dns.TypeANY, Qclass: dns.ClassINET}}
+	switch i {
+	case idxLarge3k, idxLarge20k:
+		target := 3000
+		if i == idxLarge20k {
+			target, m.Compress = 20000, true
+		}
+		for m.Len() < target {
+			m.Answer = append(m.Answer, randRR(r, zones[r.Intn(2)], false))
+		}
+		return msgCase{m, "key.example.", 0}, true
+	default: // idxPresigned
+		m.Compress = r.Intn(2) == 0
+		old := &dns.SIG{RRSIG: dns.RRSIG{Hdr: dns.RR_Header{Name: ".", Rrtype: dns.TypeSIG, Class: dns.ClassANY}, Algorithm: 15, Expiration: r.Uint32(), Inception: r.Uint32(),
+			KeyTag: 4711, SignerName: "first.signer.example.", Signature: base64.StdEncoding.EncodeToString(make([]byte, 64))}}
+		for k := 8; k <= 10; k++ {
+			for rr := randRR(r, "example.org.", false); ; rr = randRR(r, "example.org.", false) {
+				if rr.Header().Rrtype == []uint16{dns.TypeSIG, dns.TypeRRSIG, dns.TypeKEY}[k-8] {
+					m.Answer = append(m.Answer, rr)
+					m.Extra = append(m.Extra, dns.Copy(rr))
+					break
+				}
+			}
+		}
+		m.Extra = append(m.Extra, randRR(r, "example.org.", true), old)
+		return msgCase{m, "KeY.Example.ORG.", 0}, false
+	}
 }
 
 // the i-th message of a run: a function of the seeded generator only (no key material, no clock)
@@ -364,7 +425,12 @@ func record(out, keysPath string, n int, algs []string, ar bool, only int) {
 	var sum hx.Summary
 	now := time.Now().Unix()
 	ks := map[string]key{}
-	for _, a := range algs {
+	all := []string{"RSASHA1", "RSASHA256", "RSASHA512", "ECDSAP256SHA256", "ECDSAP384SHA384", "ED25519"}
+	keyAlgs := algs
+	if ar {
+		keyAlgs = all
+	}
+	for _, a := range keyAlgs {
 		alg, ok := algByName[a]
 		if !ok {
 			hx.Die("algorithm %q", a)
@@ -376,14 +442,18 @@ func record(out, keysPath string, n int, algs []string, ar bool, only int) {
 	for i := 0; i < n; i++ {
 		c := randMsg(r, i)
 		isAR := ar && i < len(arBoundary)
-		if isAR {
-			c = arMsg(r, i)
+		msgAlgs := algs
+		if ar && i < nSpecial {
+			var every bool
+			if c, every = specialMsg(r, i); every {
+				msgAlgs = all
+			}
 		}
 		packed, err := c.m.Pack()
 		if err != nil {
 			hx.Die("message %d does not pack: %v", i, err)
 		}
-		for ai, a := range algs {
+		for ai, a := range msgAlgs {
 			id := i*10 + ai
 			if only >= 0 && id != only {
 				continue
@@ -564,7 +634,14 @@ func finish(eventsPath, emitPath, keysPath, verifyPath string) {
 			}
 			vs := []variant{{"same", keyrr, k0.priv.Public()},
 				{"owner-case", withOwner(k0.rr, swapCase(signer)), k0.priv.Public()}}
-			if names[bi] == "real" || len(buf) <= 2000 { // long built messages: the two accepting variants only
+			if len(buf) > 2500 { // long messages: the accepting variants, and on the real one a wrong and a damaged key
+				if names[bi] == "real" {
+					pk, _ := base64.StdEncoding.DecodeString(k0.rr.PublicKey)
+					vs = append(vs, variant{"key-other", withOwner(k1.rr, signer), k1.priv.Public()}, variant{"key-short", withPublic(keyrr, pk[:len(pk)-1]), nil})
+				} else {
+					vs = vs[:1]
+				}
+			} else {
 				pk, err := base64.StdEncoding.DecodeString(k0.rr.PublicKey)
 				if err != nil {
 					hx.Die("KEY public key: %v", err)
@@ -638,12 +715,20 @@ func tamper(e *evSign, em *emitted, keyrr *dns.KEY, bufs [][]byte, names []strin
 		} else if len(buf) > 1200 {
 			stride = 1 + len(buf)/600
 		}
+		if stride > 37 { // however long the message: every 37th octet over its whole length, at least
+			stride = 37
+		}
+		bits := 8
+		if len(buf) > 2500 && e.SigLen == 96 {
+			bits = 2
+		}
 		for _, rg := range em.Regions {
 			for off := rg.From; off <= rg.To && off < len(buf); off++ {
-				if stride > 1 && off >= 14 && off%stride != 0 && off < rg.To-90 {
+				if stride > 1 && off >= 14 && off%stride != 0 && off < rg.To-90 && off > rg.From+2 {
 					continue
 				}
-				for bit := 0; bit < 8; bit++ {
+				for b := 0; b < bits; b++ {
+					bit := (b*3 + off) % 8
 					t := append([]byte(nil), buf...)
 					t[off] ^= 1 << bit
 					*tampered++
@@ -660,6 +745,9 @@ func tamper(e *evSign, em *emitted, keyrr *dns.KEY, bufs [][]byte, names []strin
 			}
 		}
 		for n := 12; n < len(buf); n++ {
+			if len(buf) > 2500 && n%37 != 0 && n < len(buf)-200 && (n < em.Regions[1].From-2 || n > em.Regions[2].From+2) {
+				continue // long messages: every 37th length, around the SIG RR header, and the last 200
+			}
 			*truncated++
 			sum.Evaluations++
 			e1, p1 := direct(orig, keyrr, buf[:n:n])
